@@ -642,6 +642,8 @@ class Resolver:
             if expr.id in sa:
                 return self.elem_type_of(sa[expr.id], depth - 1)
             return None
+        if isinstance(expr, ast.Subscript) and isinstance(expr.slice, ast.Slice):
+            return self.elem_type_of(expr.value, depth - 1)
         if isinstance(expr, ast.Attribute):
             base_t = self.type_of(expr.value, depth - 1)
             if base_t and base_t in self.prog.classes:
@@ -657,6 +659,9 @@ class Resolver:
                             return Resolver(self.prog, m)._ann_to_type(e)
             return None
         if isinstance(expr, ast.Call):
+            # order / container changing builtins keep the element type:  sorted(xs, key=...), list(xs), reversed(xs), xs[:n] ...
+            if isinstance(expr.func, ast.Name) and expr.func.id in ("sorted", "list", "tuple", "reversed", "set", "frozenset", "iter") and expr.args:
+                return self.elem_type_of(expr.args[0], depth - 1)
             for t in self.resolve_call(expr):
                 if isinstance(t, FuncInfo) and t.node.returns is not None:
                     e = self._elem_ann(t.node.returns)
